@@ -9,7 +9,7 @@ mkdir -p $DEST
 git -C $WT diff -- src > $DEST/patch.diff
 [ -s $DEST/patch.diff ] || { echo "$ID: empty patch"; exit 2; }
 B=$(/verif/tools/run_baseline.sh $WT | head -1)
-demo() { if [ -f tests/seed_demo.rs ]; then cargo test --offline --test seed_demo >/tmp/confirm_$ID.log 2>&1; else bash SEED/demo.sh >/tmp/confirm_$ID.log 2>&1; fi; echo $?; }
+demo() { if [ -f tests/seed_demo.rs ]; then cargo test --offline --test seed_demo >/tmp/confirm_$ID.log 2>&1; else cargo build --offline >/dev/null 2>&1; bash SEED/demo.sh </dev/null >/tmp/confirm_$ID.log 2>&1; fi; echo $?; }
 W=$(demo)
 git -C $WT apply -R $DEST/patch.diff
 WO=$(demo)
